@@ -33,6 +33,11 @@ def _spec(r, nsess, tmax, tmin=0):
     d = {"type": typ, "ts": r.randint(tmin, tmax)}
     if typ in ("Plugin", "Unplug"):
         d["sess"] = "s%d" % r.randrange(nsess)
+        if r.random() < 0.08:
+            # both records of a zero-length session, stamped with its (single) period
+            k_ = r.randrange(3)
+            d["sess"] = "z%d" % k_
+            d["ts"] = 2 + k_ % 3
     return d
 
 
@@ -79,7 +84,12 @@ class World:
 
     def ev(self, sid):
         if sid not in self.evs:
-            self.evs[sid] = sut.EV(0, 10, 5.0, "st-" + sid, sid, sut.Battery(10, 0, 6))
+            if sid.startswith("z"):
+                # a zero-length session (the car left within the period it arrived in): arrival == departure
+                t0 = 2 + int(sid[1:]) % 3
+                self.evs[sid] = sut.EV(t0, t0, 5.0, "st-" + sid, sid, sut.Battery(10, 0, 6))
+            else:
+                self.evs[sid] = sut.EV(0, 10, 5.0, "st-" + sid, sid, sut.Battery(10, 0, 6))
         return self.evs[sid]
 
     def make(self, d):
